@@ -1,8 +1,11 @@
 (* C04 - note-length expressions denote the documented tick counts and compose additively.
    This file contains only the property statements; every proof is `exact <lemma>`. *)
-From Sakura.Model Require Import Base Cursor Length.
+From Sakura.Model Require Import Base Cursor Length LexCore.
+From Sakura.Model Require Expr.
 From Sakura.Spec Require Import LenSpec.
-From Sakura.Proofs Require Import LengthP.
+From Sakura.Model Require Import Event Song Token RunCore.
+From Sakura.Spec Require NoteSem.
+From Sakura.Proofs Require Import LengthP LayoutP TimeP NoteSimDefs LenBoundaryP.
 
 (* For every well-formed expression of the grammar  [%]?[-]?digits? dots? ((^|+) part)*,
    every time base and every default length, the reader returns the documented tick count. *)
@@ -31,6 +34,189 @@ Definition ex_e : expr :=
 Example C04_example : expr_wf ex_e = true /\ calc_length (print ex_e) 96 96 = 10 + 144 + 84.
 Proof. split; vm_compute; reflexivity. Qed.
 
+(* ---- where a length ends (source_cursor.rs get_note_length) ----
+   `len_boundary r` (LenBoundaryP.v, = LayoutP.len_stop r 0): r is empty, or its first character is none of
+   0-9 . ^ % - +  (the length alphabet) and none of  space | TAB CR  (dropped inside a length), and if it is a line
+   break, the first character after the following blanks, line breaks and comments is not '^'. *)
+
+(* A printed length expression followed by a boundary is read back exactly, the cursor stays at the boundary and the
+   line counter is unchanged: a length never swallows the beginning of the next command and never stops early. *)
+Theorem C04_token_boundary : forall (e : expr) (r : list Z) (ln : Z),
+  expr_wf e = true -> len_boundary r = true ->
+  get_note_length (print e ++ r) ln = (print e, r, ln).
+Proof. exact len_token_boundary. Qed.
+
+(* Blanks, bars, TABs and CRs anywhere inside or after the length are dropped (they cannot begin a command): for any
+   text u over the length alphabet and those blanks, the length text is the length characters of u, in order. *)
+Theorem C04_token_blanks : forall (u r : list Z) (ln : Z),
+  forallb is_len_or_blank u = true -> len_boundary r = true ->
+  get_note_length (u ++ r) ln = (filter is_len_char u, r, ln).
+Proof. exact len_token_mixed. Qed.
+
+(* A '^' part may be written on a following line: line break, then blanks / TABs / CRs / further line breaks, then
+   '^'; the line counter advances by the line breaks taken. *)
+Theorem C04_token_line_break : forall (h : atom) (ps1 : list (bool * atom)) (a : atom) (ps2 : list (bool * atom))
+    (w r : list Z) (ln : Z),
+  expr_wf (h, ps1 ++ (true, a) :: ps2) = true -> forallb is_ws w = true -> len_boundary r = true ->
+  get_note_length (print (h, ps1) ++ 10 :: w ++ flat_map print_part ((true, a) :: ps2) ++ r) ln
+  = (print (h, ps1 ++ (true, a) :: ps2), r, ln + 1 + count_nl w).
+Proof. exact len_token_line_break. Qed.
+
+(* Safety, for ANY input text and line: the text returned consists of length characters only, they are taken in order
+   (`subseq`) from the consumed part u of the input, the cursor is the rest of the input, the line counter does not go
+   back, and the reader stopped at a boundary (it never stops while the length could go on).
+   The returned text is a PREFIX of the input only when no blank, bar or line break is consumed ("4 ^2" reads as "4^2"):
+   C04_token_prefix. *)
+Theorem C04_token_safe : forall (s : list Z) (ln : Z),
+  let '(t, r, ln') := get_note_length s ln in
+  forallb is_len_char t = true /\ (exists u, s = u ++ r /\ subseq t u) /\ ln <= ln' /\ len_boundary r = true.
+Proof. exact get_note_length_safe. Qed.
+
+Theorem C04_token_prefix : forall (s : list Z) (ln : Z),
+  forallb (fun c => negb (is_len_blank c) && negb (c =? 10)) s = true ->
+  s = fst (fst (get_note_length s ln)) ++ snd (fst (get_note_length s ln)).
+Proof. exact get_note_length_prefix. Qed.
+
+(* non-vacuity: "%10^4.+8.." before "c", before "\n+8" (a line break not followed by '^'), with inner blanks, and
+   continued on the next line *)
+Example C04_token_boundary_example :
+  len_boundary [99] = true /\ len_boundary [10; 43; 56] = true /\ len_boundary [10; 32; 94] = false
+  /\ get_note_length (print ex_e ++ [99]) 7 = (print ex_e, [99], 7)
+  /\ get_note_length ([52; 32; 94; 124; 50; 46] ++ [99]) 0 = ([52; 94; 50; 46], [99], 0)
+  /\ get_note_length (print (fst ex_e, [(true, mkAtom false false [4] 1)]) ++ 10 :: [13; 10; 32]
+                       ++ flat_map print_part [(true, mkAtom false false [8] 2)] ++ [99]) 0
+     = (print (fst ex_e, [(true, mkAtom false false [4] 1); (true, mkAtom false false [8] 2)]), [99], 2).
+Proof. repeat split; vm_compute; reflexivity. Qed.
+
+(* ---- `!L`: a numeric argument written as a length ----
+   The three places of the model where lexer.rs reads `!` + length: read_arg_value (arguments of n o v q t and the
+   lists of the reservation commands; a loop count only in the forms [=!L ..] and [(!L) ..]), read_value as used for the literal arguments of the (..) commands
+   (LexCore.read_calc_literal) and read_value of the expression language (Expr.read_value).  In all of them `!L` followed by
+   a boundary of the length is the tick count of L with the quarter note (= the time base) as the value of omitted parts:
+   denote tb tb e.  For read_calc_literal the text after the length must not be an operator character
+   (bang_follow r = len_boundary r && not an operator: e.g. ',' ')' or the end) - an operator would continue the expression. *)
+Theorem C04_bang : forall (tb : Z) (e : expr) (r : list Z) (ln : Z) (f : nat) (lexvars : list (list Z)),
+  expr_wf e = true ->
+  (len_boundary r = true -> read_arg_value (S f) tb (33 :: print e ++ r) ln = Ok (AInt (denote tb tb e), r, ln)) /\
+  (bang_follow r = true -> read_calc_literal tb (33 :: print e ++ r) ln = Ok (Some (denote tb tb e), r, ln)) /\
+  (len_boundary r = true -> Expr.read_value tb lexvars (S f) (33 :: print e ++ r) = Ok (Some (Expr.TConstInt (denote tb tb e)), r)).
+Proof. exact bang_all. Qed.
+
+(* blanks and TABs between the argument position and the '!' are skipped *)
+Theorem C04_bang_blanks : forall (f : nat) (tb : Z) (bl : list Z) (e : expr) (r : list Z) (ln : Z),
+  forallb (fun c => (c =? 32) || (c =? 9)) bl = true -> expr_wf e = true -> len_boundary r = true ->
+  read_arg_value (S f) tb (bl ++ 33 :: print e ++ r) ln = Ok (AInt (denote tb tb e), r, ln).
+Proof. exact read_arg_value_bang_blanks. Qed.
+
+(* a parenthesised list "(!L1,!L2,...)" as the reservation commands read it (v.onTime(..) etc.): the tick counts, in order *)
+Theorem C04_bang_array : forall (tb : Z) (es : list expr) (r : list Z) (ln : Z), es <> [] -> forallb expr_wf es = true ->
+  read_arg_int_array tb (40 :: print_bangs es ++ 41 :: r) ln = Ok (map (denote tb tb) es, r, ln).
+Proof. exact read_arg_int_array_bangs. Qed.
+
+(* non-vacuity: "!%10^4.+8.." at time base 480 before ")" ; and the mixed list "(0,127,!1)" of the property text *)
+Example C04_bang_example :
+  bang_follow [41] = true /\ len_boundary [41] = true /\
+  read_arg_value 1 480 (33 :: print ex_e ++ [41]) 0 = Ok (AInt (10 + 720 + 420), [41], 0) /\
+  read_calc_literal 480 (33 :: print ex_e ++ [41]) 0 = Ok (Some (10 + 720 + 420), [41], 0) /\
+  Expr.read_value 480 [] 1 (33 :: print ex_e ++ [41]) = Ok (Some (Expr.TConstInt (10 + 720 + 420)), [41]) /\
+  read_arg_int_array 96 [40; 48; 44; 49; 50; 55; 44; 33; 49; 41] 0 = Ok ([0; 127; 384], [], 0) /\
+  read_arg_int_array 96 (40 :: print_bangs [ex_e; (mkAtom false false [2] 1, [])] ++ 41 :: [99]) 0 = Ok ([10 + 144 + 84; 288], [99], 0).
+Proof. repeat split; vm_compute; reflexivity. Qed.
+
+(* ---- lengths inside the note language: C04_token_boundary composed with C04_denotes ----
+   The three readers of the note language that take a length: `l` (read_length), `r` (read_rest) and the lettered notes
+   (read_note).  Each has its own characters directly after the command letter, which a length must not start with:
+     l   '.' + one of the words Random onTime T onNote N onCycle C is the reservation syntax (l.onNote(..)); with any other
+         word, or none, the dot belongs to the length ("l." = the dotted default; /repo eb20c24).  l_dot_ok s: s does not
+         start with '.', or the word after that dot is none of these.  Only the length "." alone needs it (C04_l_dot_ok)
+     r   '*' '-'        ("r-4" is a backward rest)
+     c   '+' '#' '-' '*' (accidentals / natural: "c-4" is c flat, 4)
+   Reading `print e ++ r` yields the token carrying the text of e and the cursor at r (after blanks / comments for r);
+   executing it moves the time pointer by denote tb d e, d being the track's default length (for `l`: sets the default to
+   denote tb tb e).  The execution half is proved for rest and `l` in ANY state with a current track, for the lettered
+   note in the states of the C03 simulation (R s q: nothing reserved by onNote/onTime, no tie pending, no chord open). *)
+Theorem C04_in_program_rest : forall (ec : list tok -> res song -> res song) (e : expr) (r : list Z) (ln : Z) (s : song),
+  expr_wf e = true -> len_boundary r = true ->
+  eq_char (print e ++ r) 42 = false -> eq_char (print e ++ r) 45 = false -> cur_valid s ->
+  let '(t, r', _) := read_rest (print e ++ r) ln in
+  t = TRest 1 (print e) /\ r' = fst (skip_space r ln) /\
+  exists s', step_song ec t s = Ok s' /\
+    tr_timepos (cur_track s') = tr_timepos (cur_track s) + denote (s_timebase s) (tr_length (cur_track s)) e.
+Proof. exact rest_in_program. Qed.
+
+Theorem C04_in_program_length : forall (ec : list tok -> res song -> res song) (tb : Z) (e : expr) (r : list Z) (ln : Z) (s : song),
+  expr_wf e = true -> len_boundary r = true -> l_dot_ok (print e ++ r) = true -> cur_valid s ->
+  exists t, read_length tb (print e ++ r) ln = Ok (Some t, r, ln) /\ t = TLength (print e) /\
+  exists s', step_song ec t s = Ok s' /\ tr_length (cur_track s') = denote (s_timebase s) (s_timebase s) e /\
+             tr_timepos (cur_track s') = tr_timepos (cur_track s).
+Proof. exact length_in_program. Qed.
+
+(* note_boundary r ln (LayoutP.v) = boundary of the length and none of the optional continuations of a note (',' '&' "/*") *)
+Theorem C04_in_program_note : forall (ec : list tok -> res song -> res song) (z : Z) (fl : list Z) (e : expr) (r : list Z) (ln : Z)
+    (s : song) (q : NoteSem.perf),
+  forallb is_flag_char fl = true -> expr_wf e = true -> note_boundary r ln = true ->
+  is_flag_char (peek0 (print e ++ r)) = false -> R s q ->
+  exists t, read_note z (fl ++ print e ++ r) ln = (t, r, ln) /\ tok_length t = print e /\
+  exists s', step_song ec t s = Ok s' /\
+    tr_timepos (cur_track s') = tr_timepos (cur_track s) + denote (s_timebase s) (tr_length (cur_track s)) e.
+Proof. exact note_in_program. Qed.
+
+(* every length expression other than the single dot satisfies l_dot_ok, whatever follows it: dotted defaults "l.." "l.^8",
+   and of course everything that does not start with a dot *)
+Theorem C04_l_dot_ok : forall (e : expr) (r : list Z),
+  expr_wf e = true -> len_boundary r = true -> print e <> [46] -> l_dot_ok (print e ++ r) = true.
+Proof. exact l_dot_ok_auto. Qed.
+
+(* the length field of a lettered note is the expression whatever follows the boundary (gate, velocity, timing, octave, '&') *)
+Theorem C04_in_program_note_field : forall (z : Z) (fl : list Z) (e : expr) (r : list Z) (ln : Z),
+  forallb is_flag_char fl = true -> expr_wf e = true -> len_boundary r = true ->
+  is_flag_char (peek0 (print e ++ r)) = false ->
+  tok_length (fst (fst (read_note z (fl ++ print e ++ r) ln))) = print e.
+Proof. exact read_note_len. Qed.
+
+(* non-vacuity: "r%10^4.+8.. c", "l%10^4.+8.. c", "c+%10^4.+8..,50 d" *)
+Example C04_in_program_example :
+  read_rest (print ex_e ++ [32; 99]) 0 = (TRest 1 (print ex_e), [99], 0) /\
+  (exists s', step_song (fun _ r => r) (TRest 1 (print ex_e)) song_new = Ok s' /\ tr_timepos (cur_track s') = 10 + 144 + 84) /\
+  read_length 96 (print ex_e ++ [32; 99]) 0 = Ok (Some (TLength (print ex_e)), [99], 0) /\
+  tok_length (fst (fst (read_note 99 ([43] ++ print ex_e ++ [44; 53; 48; 32; 100]) 0))) = print ex_e /\
+  cur_valid song_new.
+Proof.
+  split; [vm_compute; reflexivity|]. split; [eexists; split; vm_compute; reflexivity|].
+  split; [vm_compute; reflexivity|]. split; [vm_compute; reflexivity|]. unfold cur_valid. vm_compute. lia.
+Qed.
+(* "l. c": the dotted default length - the token carries ".", l_dot_ok holds, and after it a c moves the pointer by 144 ticks
+   at time base 96; "l.. c" carries both dots; in "l.c d" the c is left to be read as a note; "l.onNote(1)" and "l.N(1)" are
+   reservations (the one place where l_dot_ok fails) *)
+Definition ex_dot : expr := (mkAtom false false [] 1, []).
+Example C04_l_dot :
+  print ex_dot = [46] /\ l_dot_ok (print ex_dot ++ [32; 99]) = true /\
+  read_length 96 [46; 32; 99] 0 = Ok (Some (TLength [46]), [99], 0) /\
+  read_length 96 [46; 46; 32; 99] 0 = Ok (Some (TLength [46; 46]), [99], 0) /\
+  read_length 96 [46; 99; 32; 100] 0 = Ok (Some (TLength [46]), [99; 32; 100], 0) /\
+  (exists s1 s2, step_song (fun _ r => r) (TLength [46]) song_new = Ok s1 /\ tr_length (cur_track s1) = 144 /\
+     step_song (fun _ r => r) (TNote 0 0 0 [] 0 (-1) ISIZE_MIN (-1) 0) s1 = Ok s2 /\ tr_timepos (cur_track s2) = 144) /\
+  l_dot_ok ([46] ++ [111; 110; 78; 111; 116; 101; 40; 49; 41]) = false /\ l_dot_ok ([46] ++ [78; 40; 49; 41]) = false /\
+  read_length 96 [46; 78; 40; 49; 41] 0 = Ok (Some (TOnNote Reserve.WL false [1]), [], 0).
+Proof.
+  do 5 (split; [vm_compute; reflexivity|]).
+  split; [eexists; eexists; split; [vm_compute; reflexivity|]; split; [vm_compute; reflexivity|]; split; vm_compute; reflexivity|].
+  repeat split; vm_compute; reflexivity.
+Qed.
+
 Print Assumptions C04_denotes.
 Print Assumptions C04_additive.
 Print Assumptions C04_literals.
+Print Assumptions C04_token_boundary.
+Print Assumptions C04_token_blanks.
+Print Assumptions C04_token_line_break.
+Print Assumptions C04_token_safe.
+Print Assumptions C04_token_prefix.
+Print Assumptions C04_bang.
+Print Assumptions C04_bang_blanks.
+Print Assumptions C04_bang_array.
+Print Assumptions C04_in_program_rest.
+Print Assumptions C04_in_program_length.
+Print Assumptions C04_in_program_note.
+Print Assumptions C04_in_program_note_field.
+Print Assumptions C04_l_dot_ok.
